@@ -75,6 +75,21 @@ CHECKS = {
             "17 adversarial alias maps; result, input immutability, repeatability (fresh/reused/shared rewriter) and "
             "the bijection inverse are checked on the real code.",
             "Trusted: spec/Rewrite.tla; harness/project.py."),
+    "C16": ("DESIGN.md 6/C16",
+            "dispatch logs of the real NodeVisitor validated event-by-event against the TLA+ Visitor machine "
+            "(Trace_Visit); transformer results compared with Visitor!ReplaceKind computed by TLC (MC_C16); "
+            "non-mutation of every shipped visitor and ==/structure agreement replayed on real trees",
+            "Exhaustive within bounds: every tree with <=1 wide / <=2 narrow (thorough: sampled 2 wide) operator/bracket "
+            "nodes over all node kinds x (no override, every occurring class, two absent classes): each real dispatch "
+            "log is a trace TLC accepts or rejects; each transformer output equals the spec's.",
+            "Trusted: spec/Visitor.tla field table; recorder subclass (log entries are written by the handler that was "
+            "actually invoked)."),
+    "C17": ("DESIGN.md 6/C17",
+            "TLC enumerates (expression, variable) pairs (MC_C17) and computes Rewrite!Relative; replayed into "
+            "expression_relative_to_identifier incl. immutability and call-history independence",
+            "Exhaustive within bounds: all trees with <=1 (thorough 2) operator/bracket nodes over 25 path/lambda atoms "
+            "x 3 variable names, visited in two different orders with interleaved foreign calls.",
+            "Trusted: spec/Rewrite.tla; harness/project.py."),
 }
 
 PENDING = ["C01", "C02", "C03", "C04", "C06", "C07", "C08", "C09", "C10", "C11", "C12", "C13", "C14", "C15",
